@@ -29,6 +29,7 @@ C11-F4 C11 1040c0d
 C13-F1 C13 b816e76
 C13-F2 C13 8d10c89
 C13-F4 C13 f069c61
+C13-F5 C13 cdd235c
 C15-F1 C15 7e9df0f 82b6cca
 C15-F3 C15 ba0fe32
 C15-F4 C15 7e9df0f
